@@ -101,6 +101,10 @@ func genArbitraryDoc(t *rapid.T) string {
 	root.CreateAttr("xmlns:samlp", h.NSProtocol)
 	root.CreateAttr("ID", "_"+rapid.StringMatching(`[a-f0-9]{8}`).Draw(t, "docID"))
 	n := rapid.IntRange(0, 5).Draw(t, "docKids")
+	if rapid.IntRange(0, 5).Draw(t, "largeDoc") == 0 {
+		// several KB: crosses the buffer sizes of writers / encoders (4096, 8192, 32768)
+		n = rapid.SampledFrom([]int{60, 130, 300, 700}).Draw(t, "docKidsLarge")
+	}
 	for i := 0; i < n; i++ {
 		e := root.CreateElement(rapid.SampledFrom([]string{"a", "b", "samlp:Extensions", "x"}).Draw(t, "tag"))
 		e.SetText(h.GenText(h.TextOpts{MaxLen: 5}).Draw(t, "docText"))
@@ -121,7 +125,7 @@ func genC14(t *rapid.T) C14Case {
 		rapid.SampledFrom([]string{"", "/", "/sso", "/saml2/idp/SSO.php", "/a/b/c~d_e-f.g"}).Draw(t, "path")
 	nq := rapid.IntRange(0, 3).Draw(t, "nQuery")
 	for i := 0; i < nq; i++ {
-		k := rapid.SampledFrom([]string{"tenant", "idpid", "x", "spentityid", "a b", "k&k", "zz", "Sig"}).Draw(t, "qk")
+		k := rapid.SampledFrom([]string{"tenant", "idpid", "x", "spentityid", "a b", "k&k", "zz", "Sig", "DefaultRelayState", "PreferredSigAlg", "IdPSAMLRequest", "xRelayState", "ASigAlg", "1SAMLRequest", "RelayState2", "Signature2", "samlrequest"}).Draw(t, "qk")
 		c.Query = append(c.Query, KV{k, rapid.OneOf(rapid.SampledFrom([]string{"", "1", "a b", "a+b", "x&y=z", "100%", "é"}), h.GenText(h.TextOpts{MaxLen: 3})).Draw(t, "qv")})
 	}
 	if rapid.IntRange(0, 3).Draw(t, "fragment") == 0 {
